@@ -202,12 +202,42 @@ package bytecode
 // (assumed: it returns instructions or an error); its FRAME is checked by write-effect
 // inference: the only pre-existing memory written below it is the per-command scope map
 // (state.variables) - in particular never the global definition maps nor a stored pattern.
-//@ func generateSearchInstruction [C13]
+// genCode(n, o, k): instruction k of the code the generator produces for node n when that code
+// is to be placed at absolute position o; genLen(n): its length, the same at every position
+// (A-GEN, assumed for the recursive body generator; what generateLoop does with it is proved).
+//@ specfunc genLen(Iface) Int
+//@ specfunc genCode(Iface, Int, Int) Iface
+//@ axiom genLen_nonneg: forall n Iface :: { genLen(n) } genLen(n) >= 0
+//@ func generateSearchInstruction [C13 C01]
 //@   trusted
-//@   effects onlywrites map<string>int
+//@   effects onlywrites map<string>int [C13]
 //@   requires l != nil && state != nil && state.variables != nil
 //@   modifies allmaps(state.variables)
-//@   ensures result.1 != nil || true
+//@   ensures code: result.1 == nil ==> len(result.0) == genLen(*l) && genLen(*l) >= 0 && (fresh(result.0) || len(result.0) == 0) && (forall k :: { result.0[k] } 0 <= k && k < len(result.0) ==> result.0[k] == genCode(*l, offset, k)) [C01]
+
+// Layout of a loop (C01): every mandatory iteration of an unnamed loop is the body's code
+// generated for the position where it is placed (P records the chunk starts); the repeating
+// part is StartLoop, the body generated for the position after it, StopLoop, with the two
+// jump fields pointing at each other's positions.
+//@ pred loopAt(code []SearchInstruction, c Int, offset Int, L Int, fewest Bool) := len(code) == c + L + 2 && code[c] is StartLoop && (code[c] as StartLoop).ExitLoop == offset + c + L + 1 && code[c + L + 1] is StopLoop && (code[c + L + 1] as StopLoop).StartLoop == offset + c && (code[c] as StartLoop).Id == (code[c + L + 1] as StopLoop).Id && (code[c] as StartLoop).Fewest == fewest && (code[c + L + 1] as StopLoop).Fewest == fewest
+//@ func generateLoop [C01]
+//@   noframe
+//@   requires l != nil && state != nil && state.variables != nil
+//@   modifies allmaps(state.variables)
+//@   let B := l.Body
+//@   let L := genLen(l.Body)
+//@   let unrolled := l.Min > 0 && l.Name == ""
+//@   let nfix := unrolled ? l.Min : 0
+//@   ensures starts: result.1 == nil && unrolled ==> select(P, 0) == offset && (forall j :: { select(P, j) } 0 <= j && j < l.Min ==> select(P, j + 1) == select(P, j) + L)
+//@   ensures mandatory: result.1 == nil && unrolled ==> forall j :: { select(P, j) } 0 <= j && j < l.Min ==> (forall p :: { result.0[p] } select(P, j) - offset <= p && p < select(P, j + 1) - offset ==> result.0[p] == genCode(B, select(P, j), p - (select(P, j) - offset)))
+//@   ensures fixedonly: result.1 == nil && l.Min == l.Max && l.Name == "" ==> len(result.0) == (unrolled ? select(P, l.Min) - offset : 0)
+//@   ensures repeating: result.1 == nil && !(l.Min == l.Max && l.Name == "") ==> loopAt(result.0, (unrolled ? select(P, l.Min) - offset : 0), offset, L, l.Fewest)
+//@   ensures body: result.1 == nil && !(l.Min == l.Max && l.Name == "") ==> (forall p :: { result.0[p] } len(result.0) - L - 1 <= p && p < len(result.0) - 1 ==> result.0[p] == genCode(B, offset + len(result.0) - L - 1, p - (len(result.0) - L - 1)))
+//@   loop 1 ghost P (Array Int Int) := store(P, 0, offset) ;; store(P, i, current_offset)
+//@   loop 1 invariant 0 <= i && i <= l.Min && unrolled && l.Body == B && state.variables != nil && select(P, i) == current_offset && select(P, 0) == offset && len(result) == current_offset - offset && L >= 0
+//@   loop 1 invariant forall j :: { select(P, j) } 0 <= j && j < i ==> select(P, j + 1) == select(P, j) + L && select(P, j) >= offset
+//@   loop 1 invariant forall j :: { select(P, j) } 0 <= j && j <= i ==> select(P, j) <= current_offset
+//@   loop 1 invariant forall j :: { select(P, j) } 0 <= j && j < i ==> (forall p :: { result[p] } select(P, j) - offset <= p && p < select(P, j + 1) - offset ==> result[p] == genCode(B, select(P, j), p - (select(P, j) - offset)))
 // ---- the replacer program: one instruction per `with` item, in order (C05) ----
 //@ pred itemInst(a ast.AstAtom, tf map[string]AstProcessProgram, ri ReplaceInstruction) :=
 //@    (a is *ast.AstString ==> ri == box(ReplaceString, mk(ReplaceString, (a as *ast.AstString).Value)))
